@@ -168,11 +168,6 @@ def rowLine (f : DisplayFlags) (now : Int) (p : Plane) : String :=
 
 -- sorting ---------------------------------------------------------------------------------
 
-def optNatLe : Option Nat → Option Nat → Bool
-  | none, _ => true
-  | some _, none => false
-  | some a, some b => a ≤ b
-
 /-- the comparison `sort_printed_planes` uses for one key letter (`a ≤ b` in the sort order),
     and whether the vector is reversed afterwards; `none` = letter not recognised -/
 def sortKey (c : Char) : Option ((Plane → Plane → Bool) × Bool) :=
